@@ -24,8 +24,16 @@ type rArrival struct {
 // every stalled call has its own release channel, so that two loops can be held independently
 type rQueue struct {
 	quartz.JobQueue
-	arrive chan rArrival
-	gated  atomic.Bool
+	arrive    chan rArrival
+	gated     atomic.Bool
+	pushGated atomic.Bool
+}
+
+func (q *rQueue) Push(j quartz.ScheduledJob) error {
+	if q.pushGated.Load() {
+		q.gate("Push")
+	}
+	return q.JobQueue.Push(j)
 }
 
 func (q *rQueue) gate(n string) {
@@ -195,6 +203,120 @@ func runRestart(trial int, variant string) (res restartResult) {
 	return
 }
 
+// C05: a slow Push inside ResumeJob (a persistent queue).  The loop is parked (on a paused head, or on a
+// far head); ResumeJob of a job that is due runs with its Push held back; whatever the loop does in the
+// meantime, once the Push has landed and ResumeJob has returned the resumed job must be dispatched.
+func runSlowPush(trial int, sit string) (res restartResult) {
+	res = restartResult{Kind: "restart", Trial: trial, Variant: "slowpush-" + sit, DelayMs: -1}
+	q := &rQueue{JobQueue: quartz.NewJobQueue(), arrive: make(chan rArrival)}
+	q.gated.Store(true)
+	s, _ := quartz.NewStdScheduler(quartz.WithQueue(q, &sync.Mutex{}), quartz.WithOutdatedThreshold(time.Hour))
+	var ran atomic.Int32
+	var tExec atomic.Int64
+	hour := time.Hour
+	t0 := time.Now()
+	if sit == "far" {
+		s.ScheduleJob(detail("far", func(context.Context) error { return nil }), relTrigger(hour, 2*hour))
+	}
+	s.ScheduleJob(detail("pz", func(ctx context.Context) error {
+		ran.Add(1)
+		tExec.CompareAndSwap(0, int64(time.Since(t0)))
+		return nil
+	}), relTrigger(hour, -time.Millisecond, 3*hour))
+	s.PauseJob(quartz.NewJobKey("pz"))
+	s.Start(context.Background())
+	defer func() {
+		q.gated.Store(false)
+		q.pushGated.Store(false)
+		stop := make(chan struct{})
+		go func() {
+			for {
+				select {
+				case a := <-q.arrive:
+					close(a.rel)
+				case <-stop:
+					return
+				}
+			}
+		}()
+		s.Stop()
+		ctx, c := context.WithTimeout(context.Background(), 5*time.Second)
+		s.Wait(ctx)
+		c()
+		close(stop)
+	}()
+	// let the loop park
+	for {
+		select {
+		case a := <-q.arrive:
+			res.Trace = append(res.Trace, a.name)
+			close(a.rel)
+			continue
+		case <-time.After(150 * time.Millisecond):
+		}
+		break
+	}
+	res.Trace = append(res.Trace, "parked")
+	q.pushGated.Store(true)
+	t0 = time.Now()
+	apiDone := make(chan error, 1)
+	go func() { apiDone <- s.ResumeJob(quartz.NewJobKey("pz")) }()
+	var push *rArrival
+	deadline := time.Now().Add(5 * time.Second)
+	quietSince := time.Now()
+	for time.Now().Before(deadline) {
+		select {
+		case a := <-q.arrive:
+			quietSince = time.Now()
+			if a.name == "Push" {
+				res.Trace = append(res.Trace, "Push(held)")
+				aa := a
+				push = &aa
+			} else {
+				res.Trace = append(res.Trace, "loop:"+a.name)
+				close(a.rel)
+			}
+			continue
+		case <-time.After(20 * time.Millisecond):
+		}
+		if push != nil && time.Since(quietSince) > 150*time.Millisecond {
+			break
+		}
+	}
+	if push == nil {
+		res.Error = "ResumeJob did not reach its Push"
+		return
+	}
+	res.Trace = append(res.Trace, "release Push")
+	q.pushGated.Store(false)
+	close(push.rel)
+	select {
+	case err := <-apiDone:
+		if err != nil {
+			res.Error = "ResumeJob failed: " + err.Error()
+			return
+		}
+	case <-time.After(5 * time.Second):
+		res.Error = "ResumeJob did not return"
+		return
+	}
+	end := time.Now().Add(5 * time.Second)
+	for time.Now().Before(end) && ran.Load() == 0 {
+		select {
+		case a := <-q.arrive:
+			close(a.rel)
+		case <-time.After(5 * time.Millisecond):
+		}
+	}
+	time.Sleep(20 * time.Millisecond)
+	res.Executed = ran.Load()
+	if t := tExec.Load(); t > 0 {
+		res.DelayMs = t / 1e6
+	}
+	res.IsStarted = s.IsStarted()
+	return
+}
+
 func cmdRestart() {
 	n := argInt(3, 12)
 	var wg sync.WaitGroup
@@ -211,7 +333,18 @@ func cmdRestart() {
 				variant = "queue"
 			}
 			ch := make(chan restartResult, 1)
-			go func() { ch <- runRestart(i, variant) }()
+			go func() {
+				switch {
+				case i%6 == 4:
+					variant = "slowpush-paused"
+					ch <- runSlowPush(i, "paused")
+				case i%6 == 5:
+					variant = "slowpush-far"
+					ch <- runSlowPush(i, "far")
+				default:
+					ch <- runRestart(i, variant)
+				}
+			}()
 			select {
 			case r := <-ch:
 				emit(r)
